@@ -724,6 +724,36 @@ func (c *Ctx) lengthAndWriterAgree() {
 				if old, ok := counted[f]; !ok || len(fs) > len(old) {
 					counted[f] = fs
 				}
+				// the length may be taken first and added later, under further guards: follow it into the sums
+				if cv, ok := call.(ssa.Value); ok {
+					seen := map[ssa.Value]bool{}
+					var follow func(v ssa.Value, d int)
+					follow = func(v ssa.Value, d int) {
+						if d > 4 || seen[v] || v.Referrers() == nil {
+							return
+						}
+						seen[v] = true
+						for _, ref := range *v.Referrers() {
+							bo, ok := ref.(*ssa.BinOp)
+							if !ok || bo.Op != token.ADD {
+								continue
+							}
+							if fs2 := relevant(c.presenceFacts(bo.Block())); len(fs2) > len(counted[f]) {
+								counted[f] = fs2
+							}
+							// go on only while the sum is still "prefix + this length" (constant other operand):
+							// once it was added to the running total, later additions belong to other fields
+							other := bo.X
+							if other == v {
+								other = bo.Y
+							}
+							if _, isK := other.(*ssa.Const); isK {
+								follow(bo, d+1)
+							}
+						}
+					}
+					follow(cv, 0)
+				}
 			}
 		}
 		written := map[string]map[string]bool{}
